@@ -719,6 +719,29 @@ fn background_tasks(handle: Handle, notify_shutdown: broadcast::Sender<()>) -> R
     Ok(())
 }
 
+/// Schedule points for verification, only available with the `verif` feature. A callback that is
+/// installed with [`verif_set_schedule_hook`] is invoked by the background tasks at named points
+/// (`"merge-timer-fired"`, `"sync-timer-fired"`). Nothing happens when no callback is installed.
+#[cfg(feature = "verif")]
+type VerifScheduleHook = Arc<dyn Fn(&'static str) + Send + Sync>;
+
+#[cfg(feature = "verif")]
+static VERIF_SCHEDULE_HOOK: Mutex<Option<VerifScheduleHook>> = parking_lot::const_mutex(None);
+
+/// Install or remove the schedule points callback. Only available with the `verif` feature.
+#[cfg(feature = "verif")]
+pub fn verif_set_schedule_hook(hook: Option<VerifScheduleHook>) {
+    *VERIF_SCHEDULE_HOOK.lock() = hook;
+}
+
+#[cfg(feature = "verif")]
+fn verif_schedule_point(name: &'static str) {
+    let hook = VERIF_SCHEDULE_HOOK.lock().clone();
+    if let Some(hook) = hook {
+        hook(name);
+    }
+}
+
 /// A periodic background task that checks the merge triggers and performs merging when the trigger
 /// conditions are met.
 #[tracing::instrument(skip(handle, shutdown))]
@@ -739,6 +762,8 @@ async fn merge_on_interval(handle: Handle, mut shutdown: Shutdown) -> Result<(),
                 return Ok(());
             },
         };
+        #[cfg(feature = "verif")]
+        verif_schedule_point("merge-timer-fired");
         if handle.ctx.can_merge() {
             let handle = handle.clone();
             if let Err(e) = tokio::task::spawn_blocking(move || handle.merge()).await? {
@@ -764,6 +789,8 @@ async fn sync_on_interval(handle: Handle, mut shutdown: Shutdown) -> Result<(), 
                     return Ok(());
                 },
             };
+            #[cfg(feature = "verif")]
+            verif_schedule_point("sync-timer-fired");
             let handle = handle.clone();
             if let Err(e) = tokio::task::spawn_blocking(move || handle.sync()).await? {
                 error!(cause=?e, "sync error");
